@@ -278,6 +278,16 @@ def one_history(ctx, kind, factory, route, rng):
         nm = f'SH{rng.randrange(1000)}'
         r1, r2 = do(lambda: a.add_variable(nm, arr)), do(lambda: b.add_variable(nm, arr))
         hist.append(['both', 'add-variable-from-one-shared-array', f'{r1}/{r2}'])
+    if rng.random() < 0.25 and hasattr(a, 'values'):
+        # the same caller-owned 2-D array assigned to `values` on both objects
+        try:
+            sh = np.shape(a.values)
+            if len(sh) == 2 and sh == np.shape(b.values) and sh[0] and sh[1]:
+                block = np.full(sh, 3.5)
+                r1, r2 = do(lambda: setattr(a, 'values', block)), do(lambda: setattr(b, 'values', block))
+                hist.append(['both', 'values-from-one-shared-array', f'{r1}/{r2}'])
+        except Exception:
+            pass
     if not identity_sweep(ctx, a, b, case):
         return
     # mutations after the copy, on either side
